@@ -378,8 +378,191 @@ fn sweep(t: Tier) -> Box<dyn Iterator<Item = Case>> {
     }))
 }
 
+// --- differential on arbitrary (also non-canonical) mappings strings ----------------------------
+
+/// Both directions against the independent reader: malformed (one of the listed reasons) =>
+/// the crate must refuse; well-formed and inside u32 => the crate must accept and produce
+/// exactly the reference tokens. Returns a class label.
+pub fn differential(text: &str, ns: usize, nn: usize) -> Result<&'static str, String> {
+    let sources: Vec<String> = (0..ns).map(|i| format!("\"s{i}.js\"")).collect();
+    let names: Vec<String> = (0..nn).map(|i| format!("\"n{i}\"")).collect();
+    let doc = format!(
+        "{{\"version\":3,\"sources\":[{}],\"names\":[{}],\"mappings\":{}}}",
+        sources.join(","),
+        names.join(","),
+        v3::json_str(text, false)
+    );
+    let got = match guard(|| decode_slice(doc.as_bytes())) {
+        Ok(r) => r,
+        Err(p) => return Err(format!("decoding mappings {text:?}: {p}")),
+    };
+    // a 13-digit value whose magnitude needs more than 62 bits: the VLQ contract (C11) is silent
+    let huge = text
+        .split([',', ';'])
+        .filter(|s| !s.is_empty())
+        .filter_map(|s| rv::read(s).ok())
+        .flatten()
+        .any(|v| v.value.unsigned_abs() >= (1u128 << 62));
+    if huge {
+        return Ok("value-beyond-62-bits(crash-freedom only)");
+    }
+    match v3::decode_mappings(text, ns, nn) {
+        Err(why) => match got {
+            Err(_) => Ok("malformed=>rejected"),
+            Ok(_) => Err(format!("mappings {text:?} ({ns} sources, {nn} names) decoded successfully although it is malformed: {why:?}")),
+        },
+        Ok(d) if d.out_of_u32 => Ok("leaves-u32(unspecified)"),
+        Ok(d) => match got {
+            Err(e) => Err(format!("well-formed mappings {text:?} ({ns} sources, {nn} names) rejected: {e}")),
+            Ok(DecodedMap::Regular(sm)) => {
+                let mut want: Vec<(u32, u32, Option<(u32, u32, u32, Option<u32>)>)> = d
+                    .tokens
+                    .iter()
+                    .map(|t| (t.dl, t.dc, t.src.as_ref().map(|s| (s.id, s.line, s.col, s.name))))
+                    .collect();
+                want.sort();
+                let mut have: Vec<(u32, u32, Option<(u32, u32, u32, Option<u32>)>)> = sm
+                    .tokens()
+                    .map(|t| {
+                        (
+                            t.get_dst_line(),
+                            t.get_dst_col(),
+                            if t.has_source() {
+                                Some((t.get_src_id(), t.get_src_line(), t.get_src_col(), if t.get_name_id() != !0 { Some(t.get_name_id()) } else { None }))
+                            } else {
+                                None
+                            },
+                        )
+                    })
+                    .collect();
+                let sorted = have.windows(2).all(|w| (w[0].0, w[0].1) <= (w[1].0, w[1].1));
+                have.sort();
+                if have != want {
+                    return Err(format!("mappings {text:?} ({ns} sources, {nn} names): decoded tokens {have:?} differ from the independent reading {want:?}"));
+                }
+                if !sorted {
+                    return Err(format!("mappings {text:?}: decoded tokens are not ordered"));
+                }
+                if let Err(e) = resolves(&DecodedMap::Regular(sm)) {
+                    return Err(e);
+                }
+                Ok("well-formed=>same-tokens")
+            }
+            Ok(_) => Err("regular document decoded as another kind".into()),
+        },
+    }
+}
+
+#[derive(Clone, Debug, Hash, Serialize, Deserialize)]
+pub struct DiffCase {
+    pub text: String,
+    pub ns: u8,
+    pub nn: u8,
+}
+
+fn check_diff(c: &DiffCase, obs: &mut Obs) -> Verdict {
+    match differential(&c.text, c.ns as usize, c.nn as usize) {
+        Ok(class) => {
+            obs.class(class);
+            let digits = c.text.bytes().filter(|b| rv::digit_of(*b).is_some()).count();
+            let canonical = c.text.split([',', ';']).all(|s| s.is_empty() || rv::read(s).map(|v| rv::write_all(&v.iter().map(|x| x.value as i64).collect::<Vec<_>>()) == s).unwrap_or(true));
+            obs.class_if(!canonical && class == "well-formed=>same-tokens", "non-canonical-vlq-accepted-identically");
+            if digits >= 6 && class != "leaves-u32(unspecified)" && class != "value-beyond-62-bits(crash-freedom only)" {
+                obs.nontrivial();
+            }
+            Verdict::Pass
+        }
+        Err(e) => Verdict::Fail(e),
+    }
+}
+
+/// Strings from a segment grammar: values written canonically or padded to 1..13 (rarely 14+)
+/// digits, mostly legal arities and in-range running indices, sometimes not.
+fn diff_line(clean: bool) -> BoxedStrategy<String> {
+    let pad = move || -> BoxedStrategy<usize> {
+        if clean {
+            prop_oneof![5 => Just(0usize), 3 => 1usize..14].boxed()
+        } else {
+            prop_oneof![5 => Just(0usize), 3 => 1usize..14, 1 => 14usize..17].boxed()
+        }
+    };
+    let render = |v: i64, pad: usize| {
+        let mut s = String::new();
+        if pad == 0 {
+            rv::write(&mut s, v);
+        } else {
+            rv::write_padded(&mut s, v, pad.max(rv::write_all(&[v]).len()));
+        }
+        s
+    };
+    let magnitude = if clean {
+        prop_oneof![10 => 0i64..8, 1 => -2i64..1, 2 => 0i64..300, 1 => Just((1i64 << 31) - 1)].boxed()
+    } else {
+        prop_oneof![6 => -3i64..4, 2 => -70i64..70, 1 => proptest::sample::select(vec![(1i64 << 31) - 1, -(1i64 << 31), (1i64 << 32) - 1, 1 << 32, -(1i64 << 32)])].boxed()
+    };
+    let value = (magnitude, pad()).prop_map(move |(v, p)| render(v, p));
+    // source / name deltas are mostly 0 so that running indices stay in range
+    let idx_delta = if clean {
+        prop_oneof![30 => Just(0i64), 1 => 0i64..2].boxed()
+    } else {
+        prop_oneof![10 => Just(0i64), 2 => -1i64..2, 1 => -3i64..4].boxed()
+    };
+    let idx_value = (idx_delta, pad()).prop_map(move |(v, p)| render(v, p));
+    let arity = if clean {
+        prop_oneof![3 => Just(1usize), 6 => Just(4), 6 => Just(5)].boxed()
+    } else {
+        prop_oneof![3 => Just(1usize), 6 => Just(4), 6 => Just(5), 2 => 0usize..8].boxed()
+    };
+    let seg = (arity, vec(value, 8), vec(idx_value, 2)).prop_map(|(n, mut v, idx)| {
+        v[1] = idx[0].clone();
+        v[4] = idx[1].clone();
+        v.into_iter().take(n).collect::<String>()
+    });
+    vec(seg, 0..5).prop_map(|s| s.join(",")).boxed()
+}
+
+/// Strings from a segment grammar: values written canonically or padded to 1..13 (in the
+/// "dirty" half also 14+) digits, legal arities and mostly in-range running indices (dirty:
+/// any arity), plus alphabet soup.
+fn diff_strings(_t: Tier) -> BoxedStrategy<DiffCase> {
+    (
+        prop_oneof![
+            6 => vec(diff_line(true), 0..5).prop_map(|l| l.join(";")),
+            4 => vec(diff_line(false), 0..5).prop_map(|l| l.join(";")),
+            1 => "[A-Za-z0-9+/,;]{0,24}".prop_map(|s| s),
+            1 => "[ACDEgh,;!= -]{0,16}".prop_map(|s| s),
+        ],
+        prop_oneof![1 => Just(0u8), 6 => 1u8..4],
+        prop_oneof![1 => Just(0u8), 6 => 1u8..4],
+    )
+        .prop_map(|(text, ns, nn)| DiffCase { text, ns, nn })
+        .boxed()
+}
+
+/// libFuzzer entry: byte 0 -> number of sources (0..3), byte 1 -> number of names (0..3), rest
+/// -> the mappings string. Aborts on a disagreement with the independent reader.
+pub fn fuzz_one(data: &[u8]) {
+    if data.len() < 2 {
+        return;
+    }
+    let text = String::from_utf8_lossy(&data[2..]);
+    if let Err(e) = differential(&text, (data[0] % 4) as usize, (data[1] % 4) as usize) {
+        eprintln!("C06 violation: {e}");
+        std::process::abort();
+    }
+}
+
+fn wrap_fuzz(b: Vec<u8>) -> DiffCase {
+    if b.len() < 2 {
+        return DiffCase { text: String::new(), ns: 0, nn: 0 };
+    }
+    DiffCase { text: String::from_utf8_lossy(&b[2..]).into_owned(), ns: b[0] % 4, nn: b[1] % 4 }
+}
+
 fn subs() -> Vec<Sub> {
     vec![
+        gen_sub("differential_strings", diff_strings, |t| t.pick(60_000, 2_000_000), check_diff),
+        super::fuzzrun::fuzz_sub::<DiffCase>("fuzz", "c06", check_diff, wrap_fuzz),
         gen_sub("single_fault", single, |t| t.pick(40_000, 1_500_000), check),
         gen_sub("combined_faults", combined, |t| t.pick(10_000, 400_000), check),
         enum_sub("foreign_byte_sweep", sweep, check),
@@ -388,7 +571,11 @@ fn subs() -> Vec<Sub> {
 
 pub const DEF: PropertyDef = PropertyDef {
     id: "C06",
-    rule: "a well-formed abstract document (C02 generator, arrays of every size incl. empty) plus one injected fault (second sub: 2-3 \
+    rule: "differential_strings: mappings strings from a segment grammar (values canonical or padded to 1..13, rarely 14+ digits; \
+           arities 0..7; running indices mostly in range) and alphabet soup, 0..3 sources and names: malformed for one of the listed \
+           reasons => must be refused, well-formed and inside u32 => must be accepted with exactly the tokens of the independent reader \
+           (non-trivial = >= 6 digits); thorough: libFuzzer on (ns, nn, mappings) with the same differential in the target. \
+           a well-formed abstract document (C02 generator, arrays of every size incl. empty) plus one injected fault (second sub: 2-3 \
            faults): arity 2/3/6/7/12, index into an empty array, source/name index len+k, -1-k or correct+-m*2^32, continuation bit on the \
            last digit, a 14..20-digit value, a foreign character; sweep: a foreign character at every byte offset of 40 (400) documents. \
            Oracle: the twin decodes, the faulted document (confirmed malformed by the independent reader) must be Err; every malformed \
